@@ -69,7 +69,7 @@ func openCustom(n *gomavlib.Node, rec *sim.Recorder, pipes []*sim.Pipe) ([]*goma
 
 func TestC13Stall(t *testing.T) {
 	rec := evid.New(t, "C13", "2..4 channels on custom transports; one transport stops accepting writes (gate) after a warm-up, 70..300 tagged items are written to all channels while it is blocked (more than the 64-item queue), then the gate opens and more items follow; oracles: every Write call returns promptly, every other channel receives every item in order while the victim is blocked and their incoming frame events keep flowing, the victim's stream is an order-preserving duplicate-free subsequence, nothing submitted before or after the blocked interval is missing, at most queue+1 items of the blocked interval are delivered late; non-trivial = more than 64 items submitted during the block; distinct by hash of the parameters")
-	rec.Require("blocked>64", "incoming-during-block", "writes-mixed")
+	rec.Require("blocked>64", "incoming-during-block", "writes-mixed", "writes-heartbeats", "writes-mixed+heartbeats")
 	evid.Check(t, rec, evid.N(120, 400), func(t *rapid.T) {
 		drawNodeInit(t)
 		nch := rapid.IntRange(2, 4).Draw(t, "nch")
@@ -78,7 +78,7 @@ func TestC13Stall(t *testing.T) {
 		n2 := rapid.IntRange(70, 300).Draw(t, "during_block")
 		n3 := rapid.IntRange(1, 40).Draw(t, "after")
 		incoming := rapid.IntRange(0, 20).Draw(t, "incoming")
-		mode := rapid.SampledFrom([]string{"messages", "frames", "mixed", "mixed"}).Draw(t, "mode")
+		mode := rapid.SampledFrom([]string{"messages", "frames", "mixed", "mixed", "heartbeats", "mixed+heartbeats"}).Draw(t, "mode")
 		desc := fmt.Sprintf("channels=%d victim=%d warmup=%d blocked=%d after=%d incoming=%d writes=%s", nch, victim, n1, n2, n3, incoming, mode)
 		if err := watchdog(scenarioLimit, func() error { return runC13Stall(nch, victim, n1, n2, n3, incoming, mode) }); err != nil {
 			evid.ReplayNote("C13", "TestC13Stall", desc+"\n"+err.Error())
@@ -121,7 +121,10 @@ func runC13Stall(nch, victim, n1, n2, n3, incoming int, mode string) error {
 		counter++
 		done := make(chan error, 1)
 		go func() {
-			if mode == "frames" || (mode == "mixed" && c%3 != 0) {
+			if mode == "heartbeats" || (mode == "mixed+heartbeats" && c%2 == 0) {
+				// the application announces itself on its own: heartbeats are items like all others
+				done <- n.WriteMessageAll(&common.MessageHeartbeat{Type: 6, Autopilot: 8, CustomMode: uint32(c), SystemStatus: 4, MavlinkVersion: 3})
+			} else if mode == "frames" || (mode == "mixed" && c%3 != 0) {
 				fr, _ := fwdFrameCounter(c)
 				done <- n.WriteFrameAll(fr)
 			} else {
@@ -664,6 +667,12 @@ func allCounters(p *sim.Pipe) ([]int, error) {
 				return nil, derr
 			}
 			out = append(out, int(v.(*common.MessageDebug).TimeBootMs))
+		} else if f.ID == 0 && f.Sys == nodeSys {
+			v, derr := lay(0).Decode(f.Payload, f.V2)
+			if derr != nil {
+				return nil, derr
+			}
+			out = append(out, int(v.(*common.MessageHeartbeat).CustomMode))
 		} else if _, idx, ok := identifyFlat(f); ok {
 			out = append(out, idx)
 		}
